@@ -373,7 +373,10 @@ func (t *Trans) applyContract(fr *Frame, c *Contract, cname string, sig *types.S
 						asc.names["$"+n] = specVal{args[i], ptypes[i]}
 					}
 				}
-				t.oblige("assert", fmt.Sprintf("%s#assert.%s@%s", fr.path, labelOr(parts[1], "a"), parts[0]), tagsOr(ab.Tags, fr.tags), fr.curReach, asc.expandBool(ab.Expr), pos, "holds just before the call to "+cname)
+				g := asc.expandBool(ab.Expr)
+				t.oblige("assert", fmt.Sprintf("%s#assert.%s@%s", fr.path, labelOr(parts[1], "a"), parts[0]), tagsOr(ab.Tags, fr.tags), fr.curReach, g, pos, "holds just before the call to "+cname)
+				// assert-then-assume: the fact is its own obligation; later obligations may use it as a lemma
+				t.assume(fr.curReach, g)
 			}
 		}
 		// reveal-before <callee> (f args): definitional instance of an opaque spec function in the state just
